@@ -318,6 +318,62 @@ def sweep_unit_attributes(ctx):
         raise AnalysisError("unit attribute sweep found only %d sites" % n)
 
 
+def r7_helper_arms(ctx):
+    """which arm of each helper handles which kind of value, argument order into the numpy routine, pass-through guards"""
+    def chk(q, frag, key, msg):
+        fn = ctx.func(UNITS, q)
+        ctx.check(has(fn, frag), UNITS + ":" + q, key, msg + " (expected `%s`)" % frag, node=fn)
+
+    chk("compare_equality", "except TypeError: return a == b", "scalar-arm", "non-addable scalars compare by ==")
+    chk("compare_equality", "else: return a == b", "addable-arm", "addable (same-dimension) operands compare by ==")
+    chk("compare_equality", "if len(a) != len(b): return False return all(compare_equality(_a, _b) for _a, _b in zip(a, b))", "sequence-arm", "sequences compare element-wise, different lengths are unequal")
+    chk("allclose", "return np.all([_d <= lim for _d in d])", "array-vs-scalar-limit", "every difference must be <= the limit")
+    chk("allclose", "return np.all([_d <= _lim for _d, _lim in zip(d, lim)])", "array-vs-array-limit", "difference i must be <= limit i")
+    chk("allclose", "if len(a) == len(b): return all(allclose(_a, _b, rtol, atol) for _a, _b in zip(a, b)) else: return False", "container-arm", "containers are close iff same length and pairwise close with the same tolerances")
+    chk("allclose", "else: return False except Exception: return False", "uncomparable->False", "operands that can be neither subtracted nor compared pairwise are not close")
+    chk("allclose", "return allclose(pq.Quantity(a), b, rtol=rtol, atol=atol)", "uncertain-a", "an UncertainQuantity `a` is compared by its nominal value, operands keep their order")
+    chk("allclose", "return allclose(a, pq.Quantity(b), rtol=rtol, atol=atol)", "uncertain-b", "an UncertainQuantity `b` is compared by its nominal value, operands keep their order")
+    chk("linspace", "return np.linspace(start_, stop_, num) * unit", "start-then-stop", "np.linspace gets (start, stop, num) in that order")
+    chk("logspace_from_lin", "return np.exp2(np.linspace(start_, stop_, num)) * unit", "start-then-stop", "np.linspace gets (log2 start, log2 stop, num) in that order, and exp2 undoes log2")
+    chk("logspace_from_lin", "start_ = np.log2(to_unitless(start, unit))", "log2-start", "the exponent range starts at log2(start)")
+    chk("logspace_from_lin", "stop_ = np.log2(to_unitless(stop, unit))", "log2-stop", "the exponent range ends at log2(stop)")
+    chk("is_unitless", "if expr.dimensionality == pq.dimensionless: return True else: return expr.simplified.dimensionality == pq.dimensionless.dimensionality", "quantity-arm",
+        "a quantity is unitless iff its (simplified) dimensionality is dimensionless")
+    chk("is_unitless", "if isinstance(expr, dict): return all(is_unitless(_) for _ in expr.values())", "dict-arm", "a dict is unitless iff all its values are")
+    chk("is_unitless", "elif isinstance(expr, (tuple, list)): return all(is_unitless(_) for _ in expr)", "sequence-arm", "a sequence is unitless iff all its elements are")
+    fn = ctx.func(UNITS, "is_unitless")
+    last = fn.body[-1]
+    ctx.check(isinstance(last, ast.Return) and U(last.value) == "True", UNITS + ":is_unitless", "plain-number-unitless", "anything without a dimensionality is unitless", node=last)
+    chk("unit_of", "if simplified: return expr.units.simplified else: return expr.units", "units-arm", "the unit is .units (simplified on request)")
+    chk("unit_of", "except AttributeError: return 1", "plain-number->1", "a plain number has unit 1")
+    chk("rescale", "except AttributeError: if unit == 1: return value else: raise", "plain-number-only-to-1", "a plain number can be 'rescaled' to 1 only")
+    # to_unitless: where the value is handed back unconverted
+    tu = ctx.func(UNITS, "to_unitless")
+    a = UNITS + ":to_unitless"
+    chk("to_unitless", "if new_unit is None: new_unit = pq.dimensionless", "default-target", "no target means dimensionless")
+    chk("to_unitless", "elif isinstance(value, np.ndarray) and (not hasattr(value, 'rescale')): if is_unitless(new_unit) and new_unit == 1 and (value.dtype != object): return value",
+        "plain-array-passthrough", "a plain numeric array is returned as is only for the target 1")
+    chk("to_unitless", "elif isinstance(value, (int, float)) and new_unit is integer_one or new_unit is None: return value", "plain-number-passthrough", "a plain number is returned as is only for the target 1")
+    chk("to_unitless", "if result.ndim == 0: return float(result) else: return np.asarray(result)", "scalar-or-array", "0-d results become floats, others arrays")
+    chk("to_unitless", "for k in value: new_value[k] = to_unitless(value[k], new_unit)", "dict-elementwise", "dict values are converted key by key with the same target")
+    rets = [r for r in walk_shallow(tu) if isinstance(r, ast.Return) and U(r.value) == "value"]
+    ctx.check(len(rets) == 3, a, "three-passthroughs", "exactly three places may hand the value back unconverted (plain array -> 1, plain number -> 1, non-quantity -> dimensionless); found %d" % len(rets), node=tu)
+    # registry (de)serialisation
+    chk("unit_registry_to_human_readable", "if unit_registry is None: return None", "none->none", "no registry serialises to None")
+    chk("unit_registry_to_human_readable", "if unit_registry[k] is integer_one: new_registry[k] = (1, 1)", "unit-one", "the unit 1 is written as (1, 1)")
+    chk("unit_registry_to_human_readable", "if len(dim_list) != 1: raise TypeError(", "compound-refused", "compound units cannot be serialised and must be refused")
+    chk("unit_registry_to_human_readable", "u_symbol = dim_list[0].u_symbol new_registry[k] = (float(unit_registry[k]), u_symbol)", "factor-and-symbol", "a unit is written as (factor, symbol of its single base unit)")
+    chk("unit_registry_from_human_readable", "if unit_registry is None: return None", "none->none", "None deserialises to no registry")
+    chk("unit_registry_from_human_readable", "if u_symbol == 1: unit_quants = [1] else: unit_quants = list(pq.Quantity(0, u_symbol).dimensionality.keys())", "symbol-lookup", "the symbol 1 is the unit 1, any other is looked up")
+    chk("unit_registry_from_human_readable", "if len(unit_quants) != 1: raise TypeError(", "unknown-refused", "a symbol that does not name exactly one unit must be refused")
+    chk("unit_registry_from_human_readable", "new_registry[k] = factor * unit_quants[0]", "factor-times-unit", "the unit is factor * base unit")
+    chk("tile", "try: elem = array[0, ...] except TypeError: elem = array[0]", "first-element", "the unit is that of the first element")
+    chk("polyval", "try: u_x = unit_of(x[0]) except (TypeError, IndexError): u_x = unit_of(x)", "x-unit", "the x unit is that of x[0] (or of scalar x)")
+    wn = ctx.func(UNITS, "_wrap_numpy.f")
+    ctx.check(has(wn, "return numpy_func(*map(to_unitless, args), **kwargs)"), UNITS + ":_wrap_numpy.f", "args-stripped-to-dimensionless",
+              "wrapped transcendental functions must see to_unitless(arg) (target: dimensionless) of every argument", node=wn)
+
+
 RULES = [
     Rule("C09-R1", r1_derived, 22, "derived-unit table and module-level dimension dicts"),
     Rule("C09-R2", r2_chem_units, 18, "chemistry units: dimension and SI scale from the name"),
@@ -325,6 +381,7 @@ RULES = [
     Rule("C09-R4", r4_pairing, 20, "strip/re-attach pairing in the array helpers"),
     Rule("C09-R5", r5_not_swallowed, 12, "incompatible dimensions are not swallowed"),
     Rule("C09-R6", r6_registry, 24, "registry tables and registry product"),
+    Rule("C09-R7", r7_helper_arms, 37, "arms of the unit helpers, argument order into numpy, pass-through guards, registry (de)serialisation"),
     Rule("C09-S1", sweep_unit_attributes, 1, "package-wide sweep: every units./constants. attribute exists (notes)", tier="thorough"),
 ]
 
